@@ -138,6 +138,13 @@ class Env(object):
         if self.err is not None:
             raise self.err
 
+    @property
+    def via(self):
+        """Suffix for constructs of table findings: the unreviewed helpers whose bodies the table evaluator folded completely
+        (the finding is about the table those functions produce, so it stays definite)."""
+        qs = sorted(q for q in self.ev.inlined if q in (getattr(self.idx, 'unreviewed', []) or []))
+        return ' (table folded through %s)' % ', '.join(qs) if qs else ''
+
 
 # ------------------------------------------------------------------------ term helpers
 def unwrap(ev, t):
@@ -235,7 +242,7 @@ def d1_spec(ctx, idx, env):
             for name, (want, _) in sorted(spec.items()):
                 if only_matrix and name not in MATRIX_SPEC:
                     continue
-                construct = "%s['%s']" % (label, name)
+                construct = "%s['%s']%s" % (label, name, env.via)
                 t = table.get(name)
                 if t is None:
                     r.violation(construct, "the function '%s' named by the property is missing from the table: a student "
@@ -281,7 +288,35 @@ def check_binding(r, idx, construct, name, want, got, inner, where):
                         return
                 r.undecided(construct, 'definition not recognised: %s' % short(lam.body), where)
             return
-        r.undecided(construct, 'expected a lambda computing conj(transpose(x)), found %s' % show_binding(got), where)
+        if got[0] == 'fn' and idx.has_func(got[1]):
+            f = idx.func(got[1])
+            if len(f.params) == 1:
+                try:
+                    expr, st = single_return(f)
+                except AnalysisError:
+                    expr = None
+                if expr is not None:
+                    bx = {'_X': ast.Name(id=f.params[0], ctx=ast.Load())}
+                    res = classify_def(idx, f.module, ['np.conj(np.transpose(_X))', 'np.transpose(np.conj(_X))', 'np.conj(_X).T',
+                                                       'np.conj(_X.T)', '_X.conj().T', '_X.T.conj()'], expr, bx)
+                    if res == nf.MATCH:
+                        r.ok(construct, 'conjugate transpose (%s)' % f.name, where)
+                        return
+                    for pat_, what in (('np.transpose(_X)', 'the complex conjugation is missing'), ('_X.T', 'the complex conjugation is missing'),
+                                       ('np.conj(_X)', 'the transposition is missing')):
+                        if classify_def(idx, f.module, [pat_], expr, bx) == nf.MATCH:
+                            r.violation(construct, "'%s' is bound to %s, which is not the conjugate transpose: %s" % (name, f.name, what),
+                                        where, expected='conj(transpose(x))', found=short(expr))
+                            return
+            r.undecided(construct, 'definition of %s not recognised' % f.name, where)
+            return
+        if got[0] == 'np' and got[1] in ('numpy.transpose', 'numpy.conj', 'numpy.swapaxes'):
+            r.violation(construct, "'%s' (Hermitian adjoint / conjugate transpose) is bound to %s: %s -- for a complex matrix adj(A) "
+                        "is no longer the conjugate transpose (e.g. adj([[0, i], [0, 0]]) keeps the entry i instead of -i)" % (
+                            name, got[1], 'the complex conjugation is missing' if got[1] != 'numpy.conj' else 'the transposition is missing'),
+                        where, expected='conj(transpose(x))', found=got[1])
+            return
+        r.undecided(construct, 'expected a function computing conj(transpose(x)), found %s' % show_binding(got), where)
         return
     if got == want:
         r.ok(construct, 'bound to %s' % show_binding(got), where)
@@ -988,7 +1023,7 @@ def d3_constants(ctx, idx, env):
                            ('FormulaGrader.default_variables', tables.class_table(idx, FG, 'default_variables'))):
             for name, want in sorted(CONSTANT_SPEC.items()):
                 t = tab.get(name)
-                construct = "%s['%s']" % (label, name)
+                construct = "%s['%s']%s" % (label, name, env.via)
                 if t is None:
                     r.violation(construct, "the constant '%s' is missing from the default variables" % name, tab.loc(),
                                 expected=repr(want), found='<absent>')
@@ -1024,7 +1059,7 @@ def d4_domains(ctx, idx, env):
                 if want is None:
                     continue
                 t = table.get(name)
-                construct = "%s['%s'] domain" % (label, name)
+                construct = "%s['%s'] domain%s" % (label, name, env.via)
                 if t is None:
                     continue       # reported by D1.SPEC
                 inner, deco, problem = unwrap(env.ev, t)
@@ -1419,24 +1454,61 @@ def d4_decorator(ctx, idx, env):
         r.check(rets_ok and not bad and any(p.leaf.kind == 'raise' for p in paths), 'specify_domain.number_validator',
                 'accepts numbers and one-element arrays, otherwise raises Invalid',
                 'number_validator accepts a value that is neither a number nor a one-element array (or no longer raises Invalid)', nv.loc)
-        sv = idx.func(SDQ + '.make_shape_validator.<locals>.shape_validator')
+        # analysed on the source as written: the rule expands closures / once-chosen predicates itself, and the normalisation
+        # pass may inline a nested predicate at its call site although the same name is also bound to another function
+        from ..index import Index as _Index
+        raw = getattr(idx, '_c15_raw_index', None)
+        if raw is None:
+            raw = _Index(root=idx.root, overlay=idx.overlay)
+            idx._c15_raw_index = raw
+        sv = raw.func(SDQ + '.make_shape_validator.<locals>.shape_validator')
+        msv = raw.func(SDQ + '.make_shape_validator')
+        obj = sv.params[0]
+        bo = {'_O': ast.Name(id=obj, ctx=ast.Load())}
+        # a test chosen once in the enclosing function (`pred = is_square` under a condition / a nested predicate otherwise)
+        # is expanded into its cases: (condition of the choice, test applied to the object)
+        choices = {}
+        for n in walk_own(msv.node):
+            if isinstance(n, ast.Assign) and len(n.targets) == 1 and isinstance(n.targets[0], ast.Name) and isinstance(n.value, ast.Name):
+                kind, fobj = raw.resolve_name(msv.module, n.value.id)
+                if kind == 'func':
+                    gs = guards_of(n, msv.node)
+                    call = ast.Call(func=ast.Name(id=n.value.id, ctx=ast.Load()), args=[ast.Name(id=obj, ctx=ast.Load())], keywords=[])
+                    choices.setdefault(n.targets[0].id, []).append((gs, [call]))
+            elif isinstance(n, ast.FunctionDef) and n is not sv.node and len(n.args.args) == 1:
+                body = [x for x in n.body if not (isinstance(x, ast.Expr) and isinstance(x.value, ast.Constant))
+                        and not (isinstance(x, ast.Assign) and isinstance(x.targets[0], ast.Name) and x.targets[0].id.startswith('_sa_'))]
+                if len(body) == 1 and isinstance(body[0], ast.Return) and body[0].value is not None:
+                    expr = nf.subst(body[0].value, {n.args.args[0].arg: ast.Name(id=obj, ctx=ast.Load())})
+                    choices.setdefault(n.name, []).append((guards_of(n, msv.node), nf.conjuncts(nf.canon(expr))))
         paths = nf.decision_paths(sv.node.body)
-        bo = {'_O': ast.Name(id=sv.params[0], ctx=ast.Load())}
         okv = True
         detail = ''
         for p in paths:
             if p.leaf.kind == 'ret':
-                isarr = any(nf.classify('isinstance(_O, MathArray)', g, dict(bo)) == nf.MATCH for g in p.guards)
-                conj = [c for g in p.guards for c in nf.conjuncts(g)]
-                same = any(nf.classify('_O.shape == shape', c, dict(bo)) == nf.MATCH for c in conj)
-                sq_sel = any(nf.classify("shape == 'square'", c) == nf.MATCH for c in conj)
-                sq_chk = any(nf.classify('is_square(_O)', c, dict(bo)) == nf.MATCH for c in conj)
-                if not isarr:
-                    okv, detail = False, 'a value that is not a MathArray is accepted'
-                elif not (same or (sq_sel and sq_chk)):
-                    okv = False
-                    detail = ("'square' accepts any array without the is_square check" if sq_sel else
-                              'an array is accepted without comparing its shape (guards: %s)' % ' and '.join(unparse(g) for g in p.guards))
+                base = [c for g in p.guards for c in nf.conjuncts(g)]
+                cases = [base]
+                for i, c in enumerate(base):
+                    if isinstance(c, ast.Call) and isinstance(c.func, ast.Name) and c.func.id in choices and len(c.args) == 1:
+                        cases = [base[:i] + base[i + 1:] + list(gs) + list(test) for gs, test in choices[c.func.id]]
+                        break
+                for conj in cases:
+                    isarr = any(nf.classify('isinstance(_O, MathArray)', c, dict(bo)) == nf.MATCH for c in conj)
+                    same = any(nf.classify('_O.shape == shape', c, dict(bo)) == nf.MATCH for c in conj)
+                    sq_sel = any(nf.classify("shape == 'square'", c) == nf.MATCH for c in conj)
+                    sq_chk = any(nf.classify('is_square(_O)', c, dict(bo)) == nf.MATCH for c in conj)
+                    if not isarr and sq_chk:
+                        okv = False
+                        detail = ("for the 'square' shape the isinstance(obj, MathArray) test is gone: a scalar (or any non-array) reaches "
+                                  "is_square, which assumes an array (obj.ndim -> AttributeError); eval_function turns that into the generic "
+                                  "'not in its domain' error instead of ArgumentShapeError 'expected a square matrix'")
+                    elif not isarr:
+                        okv, detail = False, 'a value that is not a MathArray is accepted (conditions: %s)' % (
+                            ' and '.join(unparse(c) for c in conj) or 'none')
+                    elif not (same or (sq_sel and sq_chk)):
+                        okv = False
+                        detail = ("'square' accepts any array without the is_square check" if sq_sel else
+                                  'an array is accepted without comparing its shape (conditions: %s)' % ' and '.join(unparse(c) for c in conj))
             elif p.leaf.kind == 'fall':
                 okv, detail = False, 'a path returns None instead of raising Invalid'
             elif nf.exc_class_name(p.leaf.expr) != 'Invalid':
@@ -1837,6 +1909,10 @@ MUTANTS = [
     Mutant('factorial-gamma-argument', MF, "    value = special.gamma(z+1)", "    value = special.gamma(z-1)", 'D2'),
     Mutant('factorial-gamma-call-deleted', MF, "    value = special.gamma(z+1)\n", "", 'D2'),
     Mutant('factorial-refusal-removed', MF, "        raise FunctionEvalError(msg)\n\n    # lazy import this module for performance reasons", "        pass\n\n    # lazy import this module for performance reasons", 'D2'),
+    Mutant('seeded-C15j-adj-synonym-of-trans', MF, "ARRAY_ONLY_FUNCTIONS = {\n    'norm': np.linalg.norm,\n    'abs': array_abs,\n    'trans': np.transpose,\n    'det': has_one_square_input('det')(np.linalg.det),\n    'trace': has_one_square_input('trace')(np.trace),\n    'ctrans': lambda x: np.conj(np.transpose(x)),\n    'adj': lambda x: np.conj(np.transpose(x)),\n    'cross': cross\n}",
+           "def with_synonyms(table, synonyms):\n    result = dict(table)\n    result.update({synonym: table[name] for synonym, name in synonyms.items()})\n    return result\n\ndef conjugate_transpose(obj):\n    return np.conj(np.transpose(obj))\n\nARRAY_ONLY_FUNCTIONS = with_synonyms({\n    'norm': np.linalg.norm,\n    'abs': array_abs,\n    'trans': np.transpose,\n    'det': has_one_square_input('det')(np.linalg.det),\n    'trace': has_one_square_input('trace')(np.trace),\n    'ctrans': conjugate_transpose,\n    'cross': cross\n}, synonyms={'adj': 'trans'})", 'D1'),
+    Mutant('seeded-C02i-square-test-without-matharray-guard', SD, "    def shape_validator(obj):\n        if isinstance(obj, MathArray):\n            if obj.shape == shape:\n                return obj\n            elif shape == 'square' and is_square(obj):\n                return obj\n",
+           "    if shape == 'square':\n        has_expected_shape = is_square\n    else:\n        def has_expected_shape(obj):\n            return isinstance(obj, MathArray) and obj.shape == shape\n\n    def shape_validator(obj):\n        if has_expected_shape(obj):\n            return obj\n", 'D4'),
     Mutant('constant-e', MF, "    'e': np.e,", "    'e': 2.71,", 'D3'),
     Mutant('constant-pi', MF, "    'pi': np.pi\n", "    'pi': 3.14159\n", 'D3'),
     Mutant('constant-i', MF, "    'i': complex(0, 1),", "    'i': complex(1, 0),", 'D3'),
@@ -1928,5 +2004,9 @@ BENIGN = [
            "    if not isinstance(obj, np.ndarray):\n        return obj\n    if obj.ndim != 0:\n        return obj\n    return obj.item()"),
     Benign('number-of-args-nin-by-try', GNA, "    if hasattr(callable_obj, \"nin\"):\n        # Matches RandomFunction or numpy ufunc\n        # Sadly, even Py3's inspect.signature can't handle numpy ufunc...\n        return callable_obj.nin\n",
            "    try:\n        return callable_obj.nin\n    except AttributeError:\n        pass\n"),
+    Benign('C15j-corrected-adj-synonym-of-ctrans', MF, "ARRAY_ONLY_FUNCTIONS = {\n    'norm': np.linalg.norm,\n    'abs': array_abs,\n    'trans': np.transpose,\n    'det': has_one_square_input('det')(np.linalg.det),\n    'trace': has_one_square_input('trace')(np.trace),\n    'ctrans': lambda x: np.conj(np.transpose(x)),\n    'adj': lambda x: np.conj(np.transpose(x)),\n    'cross': cross\n}",
+           "def with_synonyms(table, synonyms):\n    result = dict(table)\n    result.update({synonym: table[name] for synonym, name in synonyms.items()})\n    return result\n\ndef conjugate_transpose(obj):\n    return np.conj(np.transpose(obj))\n\nARRAY_ONLY_FUNCTIONS = with_synonyms({\n    'norm': np.linalg.norm,\n    'abs': array_abs,\n    'trans': np.transpose,\n    'det': has_one_square_input('det')(np.linalg.det),\n    'trace': has_one_square_input('trace')(np.trace),\n    'ctrans': conjugate_transpose,\n    'cross': cross\n}, synonyms={'adj': 'ctrans'})"),
+    Benign('C02i-corrected-shape-test-chosen-once', SD, "    def shape_validator(obj):\n        if isinstance(obj, MathArray):\n            if obj.shape == shape:\n                return obj\n            elif shape == 'square' and is_square(obj):\n                return obj\n",
+           "    if shape == 'square':\n        def has_expected_shape(obj):\n            return isinstance(obj, MathArray) and is_square(obj)\n    else:\n        def has_expected_shape(obj):\n            return isinstance(obj, MathArray) and obj.shape == shape\n\n    def shape_validator(obj):\n        if has_expected_shape(obj):\n            return obj\n"),
     Benign('kronecker-else', MF, "    if x == y:\n        return 1\n    return 0", "    if x != y:\n        return 0\n    else:\n        return 1"),
 ]
